@@ -160,6 +160,18 @@ CHECKS = {
 PENDING_REASON = "check not built yet in this session (framework under construction); planned Lean proof + tie described in DESIGN.md §5"
 
 
+SRC_TIE = {
+    "C01": " Source-text tie (C01Src): Sequence.kappa's zero guard / reporting band and Sequence.sigma, translated from the live source on every run, equal kappaOf / sigmaOf for all arguments.",
+    "C02": " Source-text tie (C02Src): the body of deltaForm's loop over blobs and Sequence.delta, translated from the live source on every run, are the model's summand (sigma - sigma_blob)^2/nblobs and (deltaForm 5 + deltaForm 6)/2 for all arguments.",
+    "C04": " Source-text tie (C04Src): the no-pH forms of Fplus, Fminus, FCR, NCPR, FER, mean_net_charge translated from the live source equal the model's fractions, and FCR = f+ + f-, NCPR = f+ - f-, |NCPR| <= FCR <= 1 hold of the source text for all counts.",
+    "C08": " Source-text tie (C08Src): Sequence.phasePlotRegion translated from the live source equals regionCode for all rational arguments.",
+    "C09": " Source-text tie (C09Src): __verify_pH translated from the live source rejects exactly pH < 0 or pH > 14.",
+    "C10": " Source-text tie (C10Src): the integer bookkeeping (nblobs, flank, flank_start, flank_end) at the head of each of the SIX sliding-window functions, translated from the live source, equals the model's flanks / window count for every legal window - each copy separately.",
+    "C13": " Source-text tie (C13Src): __check_window_to_length translated from the live source raises exactly when the window exceeds the length.",
+    "C18": "",
+}
+
+
 def main():
     m = {
         "version": 1,
@@ -176,6 +188,7 @@ def main():
     for pid in IDS:
         if pid in CHECKS:
             text, extra, tech = CHECKS[pid]
+            text = text + SRC_TIE.get(pid, "")
             m["checks"].append({
                 "property_id": pid, "quick_cmd": "./check %s --tier quick" % pid, "thorough_cmd": "./check %s --tier thorough" % pid,
                 "evidence_file": "evidence/%s.json" % pid, "replay_cmd_template": "./check %s --replay {path}" % pid,
